@@ -23,11 +23,11 @@ META = {
     "bounds": [
         "2 threads, each one operation from a pool of 12 (cold find_type by qname, fetch with xsi:type, build of the same / different classes, find_subclass, find_type_by_fields, wildcard match_namespace) on ONE shared cold XmlContext (or one shared XmlVar)",
         "the real methods are lowered at check time from their current source into generators that yield before every statement touching cache / xsi_cache / sys_modules / namespace_matches; "
-        "the schedule = starting thread + the global step indices of <= 2 (quick) / 3 (thorough) preemptions, as symbolic integers: every schedule within the bound is executed",
+        "the schedule = starting thread + the global step indices of <= 2 preemptions among the first 26 (quick) / 30 (thorough) steps, thorough also <= 3 preemptions among the first 22 steps for pairs of type-index operations, as symbolic integers: every schedule within the bound is executed",
         "selector driven: the schedule is enumerated by the solver's forking; each path runs concretely",
         "fullcall: 2 real threads sharing ONE cold XmlContext and ONE XmlParser / JsonParser / TreeParser / XmlSerializer / JsonSerializer instance; thread A (one complete parse / render call of a pool document) is suspended at "
         "its k-th line event inside the xsdata package, k a symbolic integer over EVERY line boundary of the call (1k-6k per call, also inside comprehensions, sort keys and nested calls); thread B then runs one complete call; A resumes. "
-        "Both results must equal the results of the calls run alone on fresh instances. quick: 6 x 5 operation pairs with 11 loaded model classes; thorough: 102 x 12 pairs with all harness classes loaded",
+        "Both results must equal the results of the calls run alone on fresh instances. quick: 6 x 5 operation pairs with 11 loaded model classes; thorough: the quick pairs plus 102 x 2 pairs with all harness classes loaded",
     ],
     "outside": ["preemption inside a statement", "more than 2 threads, more preemptions", "the parsers' per-call state (not shared by design)", "full parse / serialize calls with more than one preemption (fullcall explores exactly one suspension of A with B atomic; finer interleavings only for the lowered context / XmlVar API)", "from_path / XInclude / file I/O"],
     "stubs": ["XmlContext.get_subclasses(object) iterates a pool of model classes (the set of loaded classes is environment)", "coroutine lowering (sched/__init__.py) stands for thread preemption at statement boundaries"],
@@ -367,7 +367,7 @@ EXPLAIN = {"interleave": replay_real, "fullcall": explain_full}
 
 FULL_QUICK_A = ["xp:holder", "xpn:holder", "xp:unionmodels", "xp:wild", "xs:holder", "jpn:holder"]
 FULL_QUICK_B = ["xp:holder", "xp:badint", "xp:wild", "jpn:holder", "xp:unionmodels"]
-FULL_THOROUGH_B = FULL_QUICK_B + ["xs:holder", "xpn:derived-root", "xp:unknown-xsi", "jp:family", "js:holder", "tp:wild", "xp:compound"]
+FULL_THOROUGH_B = ["xp:holder", "xp:badint"]
 
 
 def plan(tier):
@@ -380,6 +380,10 @@ def plan(tier):
             if quick:
                 part["small"] = 1
             jobs.append(Job("fullcall", part, 900 if quick else 3000, 60, note=f"A={la} suspended at any line boundary, B={lb} runs to completion"))
+    if not quick:
+        for la in FULL_QUICK_A:
+            for lb in FULL_QUICK_B:
+                jobs.append(Job("fullcall", {"a": labels.index(la), "b": labels.index(lb), "small": 1}, 3000, 60, note=f"A={la} suspended at any line boundary, B={lb} runs to completion"))
     for a in range(NOPS):
         if quick:
             # every pair with <= 1 preemption; pairs of operations that use the type index with <= 2 preemptions
@@ -390,5 +394,7 @@ def plan(tier):
                 jobs.append(Job("interleave", {"a": a, "bs": [b for b in INDEX_USERS if b >= a], "p2max": 25, "p3max": -1, "maxstep": 26}, 300, 60, note="selector driven, <= 2 preemptions"))
         else:
             for b in range(a, NOPS):
-                jobs.append(Job("interleave", {"a": a, "bs": [b], "p2max": 29, "p3max": 29, "maxstep": 30}, 3000, 60, note="selector driven, <= 3 preemptions"))
+                jobs.append(Job("interleave", {"a": a, "bs": [b], "p2max": 29, "p3max": -1, "maxstep": 30}, 3000, 60, note="selector driven, <= 2 preemptions among the first 30 steps"))
+                if a in INDEX_USERS and b in INDEX_USERS:
+                    jobs.append(Job("interleave", {"a": a, "bs": [b], "p2max": 21, "p3max": 21, "maxstep": 22}, 3000, 60, note="selector driven, <= 3 preemptions among the first 22 steps"))
     return jobs
